@@ -71,6 +71,17 @@ def run(tier, seed):
             check("dimensionless-right-mul", p + u, "_close(((2 * %s) * (%s * One)).unprefixed(), ((2 * %s.quantify()) * %s).unprefixed())" % (u, p, p, u))
             check("dimensionless-right-div", p + u, "_close(((6 * %s) / (%s * One)).unprefixed(), ((6 / %s.quantify()) * %s).unprefixed())" % (u, p, p, u))
             check("cancelled-quotient", p + u, "_close(((2 * %s) * ((3 * (%s * %s)) / (1 * %s))).unprefixed(), ((6 * %s.quantify()) * %s).unprefixed())" % (u, p, u, u, p, u))
+    # the same unit under a binary and under a decimal prefix: converting between the two only exchanges the prefix values
+    si_, iec_ = [p for p in prefixes if ns[p].base == 10], [p for p in prefixes if ns[p].base == 2]
+    for p in (iec_ if tier != "quick" else rng.sample(iec_, min(4, len(iec_)))):
+        for q in (si_ if tier != "quick" else rng.sample(si_, min(5, len(si_)))):
+            for u in ("Bit", "Meter", "Byte", "Second"):
+                if u not in ns:
+                    continue
+                want = 3 * float(pv(p)) / float(pv(q))
+                check("cross-base-conversion", p + q + u, "abs(float((3 * (%s * %s)).in_unit(%s * %s).magnitude) / %r - 1) < 1e-9" % (p, u, q, u, want))
+                check("cross-base-conversion", q + p + u, "abs(float((3 * (%s * %s)).in_unit(%s * %s).magnitude) / %r - 1) < 1e-9" % (q, u, p, u, 9 / want))
+                check("cross-base-sum", p + q + u, "abs(float(((3 * (%s * %s)) + (3 * (%s * %s))).unprefixed().magnitude) / (float((3 * (%s * %s)).unprefixed().magnitude) + float((3 * (%s * %s)).unprefixed().magnitude)) - 1) < 1e-9" % (p, u, q, u, p, u, q, u))
     same = {}
     for p in prefixes:
         same.setdefault(ns[p].base, []).append(p)
